@@ -13,7 +13,7 @@ def classify(case_line):
 CFG = dict(
     imports=["From Verif.C02 Require Import Model Spec ModelX SpecX."],
     checker="check_xcase",
-    n=dict(quick=280, thorough=12000),
+    n=dict(quick=280, thorough=3360),
     driver_args=lambda ctx, n, seed: ["-n", n, "-seed", seed, "-mode", "all"],
     shard=50,
     classify=classify,
